@@ -301,6 +301,76 @@ def phis(draw):
     return {"x": draw(st.sampled_from([-37.5, 0.0, -0.0, 8.3, -8.3, ZV, 38.0, -1.0, 1.0])), "walk": 64}
 
 
+# ------------------------------------------------------------------------------------------------
+# revisit: the first evaluations of a process, 40 000 / 200 000 other points, the first points again
+# ------------------------------------------------------------------------------------------------
+def run_revisit(spec, tag):
+    import json
+    import os
+    import subprocess
+
+    from vf.core import HarnessError
+
+    here = os.path.dirname(os.path.dirname(os.path.dirname(os.path.abspath(__file__))))
+    work = os.path.join(here, ".work", f"c17-revisit-{os.getpid()}-{tag}")
+    os.makedirs(work, exist_ok=True)
+    path = os.path.join(work, "spec.json")
+    with open(path, "w") as f:
+        json.dump(spec, f)
+    try:
+        p = subprocess.run([sys.executable, "-B", "-m", "vf.c17child", path], capture_output=True, text=True, timeout=1800)
+    finally:
+        try:
+            os.remove(path)
+            os.rmdir(work)
+        except OSError:
+            pass
+    if p.returncode != 0:
+        raise HarnessError(f"c17 child failed: {p.stderr[-2000:]}")
+    return json.loads(p.stdout)
+
+
+def check_revisit(spec, ctx, tag="replay"):
+    out = run_revisit(spec, tag)
+    names = ["v", "w", "vt", "wt", "phi_major"]
+    for (x, t), a, b in zip(spec["first"], out["first"], out["again"]):
+        for nm, va, vb in zip(names, a, b):
+            if va != vb and not (va != va and vb != vb):
+                raise Violation(f"revisit:{nm}", f"{nm}({x!r}{'' if nm == 'phi_major' else ', ' + repr(t)}) returned {va!r} as one of the first evaluations of the process and "
+                                                 f"{vb!r} after {spec['K']} evaluations at other points")
+        # and the first values are judged by the ordinary oracle
+        check_vw_point(x, t, None)
+        check_tie_point(x, t, None)
+    ctx.called(2 * 5 * len(spec["first"]) + 5 * spec["K"])
+    ctx.nontrivial_if(spec["K"] >= 33000)
+
+
+def revisit_custom(ctx, seed, tier, shard, nshards, n):
+    from hypothesis import HealthCheck, given, settings
+    from hypothesis import seed as hseed
+
+    specs = []
+    K = 40000 if tier == "quick" else 200000
+
+    @hseed(seed)
+    @settings(max_examples=n + 1, database=None, deadline=None, suppress_health_check=list(HealthCheck))
+    @given(st.lists(points(), min_size=3, max_size=12), st.integers(0, 2 ** 32 - 1))
+    def collect(first, prng):
+        pts = [[0.0, 1e-4 / math.sqrt(2 * 25.0 / 3 * 25.0 / 3 + 2 * (25.0 / 6) ** 2)]] + [[p["x"], p["t"]] for p in first]  # default v default first
+        specs.append({"first": pts, "prng": prng, "K": K})
+
+    collect()
+    specs = specs[:n] if shard == 0 else specs[1:n + 1]
+    for k, spec in enumerate(specs):
+        ctx.begin(spec)
+        try:
+            check_revisit(spec, ctx, f"{shard}-{k}")
+        except Violation as v:
+            v.case = spec
+            raise
+        ctx.end()
+
+
 PROPERTY = Property(
     pid="C17",
     clauses=[
@@ -311,6 +381,10 @@ PROPERTY = Property(
                     "both signs; non-trivial = at least one point evaluated"),
         Clause(name="far-range", strategy=far_points(), check=check_far, quick=4000, thorough=60000,
                rule="|x| from 40 up to the largest double (log-uniform), both signs: finite values, v >= 0, w and wt in [0, 1]; non-trivial = |x| > 1000"),
+        Clause(name="revisit-after-many", kind="custom", custom=revisit_custom, check=check_revisit, quick=32, thorough=128, shards_quick=16, shards_thorough=16,
+               rule="one fresh child interpreter per case: 4-13 generated points (the default-v-default point first) are the first evaluations of v, w, vt, wt, "
+                    "phi_major in the process; then 40 000 (quick) / 200 000 (thorough) evaluations at other points drawn from a Hypothesis-seeded PRNG; then the "
+                    "first points again: identical values (and the ordinary accuracy oracle on them); non-trivial = at least 33 000 evaluations in between"),
         Clause(name="phi", strategy=phis(), check=check_phi, quick=6000, thorough=100000,
                rule="x in [-37.5, 38] (half of them in the lower tail) and +-64-ulp walks at -37.5, 0, +-8.3, the guard; non-trivial = x < -5 or a walk"),
     ],
